@@ -1,0 +1,15 @@
+//go:build !verif
+// +build !verif
+
+package zenodb
+
+import "time"
+
+// Verification hooks are compiled out unless the "verif" build tag is set; see
+// verif_on.go.
+
+func verifPoint(name string)                           {}
+func verifEvent(name string, n int)                    {}
+func verifResetTimer(t *time.Timer, d time.Duration)   {}
+func verifResetTicker(t *time.Ticker, d time.Duration) {}
+func verifIdleSleep(d time.Duration) bool              { return false }
